@@ -31,7 +31,8 @@ OBLIGATIONS = {
     'C03': ITER_MACHINES,
     'C17': ITER_MACHINES,
     'C01': ['AxisShape_size', 'AxisShape_nrows', 'AxisShape_ncols', 'AxisShape_to_shape', 'Matrix_size', 'Matrix_is_empty', 'Matrix_nrows', 'Matrix_ncols',
-            'Matrix_shape', 'Matrix_reshape', 'Shape_new', 'Shape_nrows', 'Shape_ncols', 'Matrix_is_square', 'Matrix_ensure_square'],
+            'Matrix_shape', 'Matrix_reshape', 'Shape_new', 'Shape_nrows', 'Shape_ncols', 'Matrix_is_square', 'Matrix_ensure_square',
+            'Matrix_apply', 'Matrix_map', 'Matrix_map_ref', 'Matrix_clear', 'Matrix_contains', 'Matrix_resize', 'Matrix_overwrite'],
     'C04': ['AxisIndex_from_index', 'AxisIndex_is_out_of_bounds', 'AxisIndex_to_flattened', 'Matrix_major', 'Matrix_minor',
             'AxisShape_major', 'AxisShape_minor', 'AxisShape_major_stride', 'AxisShape_minor_stride'],
     'C05': ['Order_switch', 'Shape_transpose', 'AxisShape_transpose', 'AxisIndex_swap', 'AxisIndex_from_flattened', 'AxisIndex_to_flattened',
@@ -40,7 +41,7 @@ OBLIGATIONS = {
             ] + VIEWS + ITER_MACHINES,
     'C07': ['AxisIndex_swap', 'AxisIndex_from_flattened', 'AxisIndex_to_flattened', 'Matrix_eq'],
     'C08': ['Shape_size', 'Shape_try_to_axis_shape', 'Shape_to_axis_shape_unchecked', 'Matrix_check_size', 'AxisShape_size'] + CTORS,
-    'C09': ['Shape_size', 'Shape_try_to_axis_shape', 'Shape_to_axis_shape_unchecked', 'Matrix_reshape', 'Matrix_size', 'AxisShape_size'],
+    'C09': ['Shape_size', 'Shape_try_to_axis_shape', 'Shape_to_axis_shape_unchecked', 'Matrix_reshape', 'Matrix_size', 'AxisShape_size', 'Matrix_resize'],
     'C10': ['AxisIndex_from_index', 'AxisIndex_is_out_of_bounds', 'Matrix_major_stride', 'Matrix_minor_stride', 'Matrix_major', 'Matrix_minor',
             'Matrix_swap_major_axis_vectors', 'Matrix_swap_minor_axis_vectors', 'Matrix_swap_rows', 'Matrix_swap_cols'],
     'C11': ['Matrix_is_multiplication_like_operation_conformable', 'Matrix_ensure_multiplication_like_operation_conformable', 'Matrix_nrows', 'Matrix_ncols', 'AxisShape_nrows', 'AxisShape_ncols'],
@@ -48,7 +49,7 @@ OBLIGATIONS = {
             'Matrix_elementwise_operation', 'Matrix_elementwise_operation_consume_self', 'Matrix_elementwise_operation_assign'],
     'C18': ['Matrix_scalar_operation', 'Matrix_scalar_operation_consume_self', 'Matrix_scalar_operation_assign', 'Matrix_check_size'],
     'C13': ['AxisIndex_from_wrapping_index', 'AxisIndex_to_flattened', 'Matrix_is_empty', 'AxisShape_major', 'AxisShape_minor'],
-    'C14': ['Matrix_major', 'Matrix_minor', 'Matrix_major_stride'],
+    'C14': ['Matrix_major', 'Matrix_minor', 'Matrix_major_stride', 'Matrix_overwrite'],
     'C15': ['Index_from_flattened', 'Index_to_flattened', 'AxisIndex_to_index', 'AxisIndex_from_flattened', 'AxisIndex_from_index'],
     'C19': ['Shape_size', 'Shape_try_to_axis_shape', 'Shape_to_axis_shape_unchecked', 'Matrix_check_size', 'Index_from_flattened'] + CTORS,
 }
